@@ -174,6 +174,10 @@ def generate(rng, prop, tier):
         # (results and exceptions of every operation are still compared at every step)
         'observe': rng.weighted([(7, 'full'), (3, 'sparse')]),
     }
+    if nsib and (label.startswith('file') or label.startswith('dir')) and rng.chance(0.15):
+        # siblings with the SAME name as the target, in other directories (run_a/memo and run_b/memo)
+        for i, sc in enumerate(case['siblings']):
+            sc['name'] = 'sub%d/%s' % (i + 1, case['backend']['name'])
     sites = label in B.PERSISTENT and not risky and not cached and rng.chance(0.1)
     if sites:
         # the archives are addressed by names RELATIVE to the working directory, and the process moves between
